@@ -164,7 +164,11 @@ class Check(object):
             "violations": len(new),
         }
         os.makedirs(os.path.join(VERIF, "evidence"), exist_ok=True)
-        with open(os.path.join(VERIF, "evidence", "%s.json" % self.pid), "w") as fh:
+        ev_path = os.path.join(VERIF, "evidence", "%s.json" % self.pid)
+        if os.environ.get("VERIF_SECOND_PASS"):
+            # second pass of the thorough tier (other build configuration): merged by ./check into the main file
+            ev_path = os.path.join(rep_dir, "_evidence_%s.json" % os.environ["VERIF_SECOND_PASS"])
+        with open(ev_path, "w") as fh:
             json.dump(ev, fh, indent=1)
         for (k, m) in self.open_list[:20]:
             out.append("OPEN: property=%s %s %s" % (self.pid, k, m))
